@@ -1780,12 +1780,19 @@ class FileBuilder:
             if self._try_to_reuse_cached_file():
                 return operation.return_value
 
-            if (os.path.isfile(filename) and
-                    self._backups.back_up_and_remove(filename)):
-                logger.info(
-                    'Moved {:s} to a temporary directory, in preparation for '
-                    'rebuilding the file'.format(filename))
+            # Claim the file before moving whatever is there out of the way.
+            # That way, if another thread calls build_file* for the same file,
+            # it raises before it can disturb the file we are building.
             self._new_cache.start_building_file(filename)
+            try:
+                if (os.path.isfile(filename) and
+                        self._backups.back_up_and_remove(filename)):
+                    logger.info(
+                        'Moved {:s} to a temporary directory, in preparation '
+                        'for rebuilding the file'.format(filename))
+            except Exception:
+                self._new_cache.abort_building_file(filename)
+                raise
         except Exception:
             self._build_dirs.error_building_file(filename)
             raise
